@@ -8,7 +8,7 @@ META = {
     "technique": "Coq proof (induction over the execution history, all completion orders) on a Gallina transcription of DefaultQubit.execute + vm_compute correspondence against real default.qubit runs under every native executor backend with injected per-task delays",
     "design_ref": "DESIGN.md §3 C31",
     "text": "7 kernel-checked theorems and 2 examples (Props/C31.v) over a model in which the numpy generator, the seeded simulation and the generator-consuming simulation are arbitrary functions and the pool finishes tasks in an arbitrary order: the (circuit, seed) pairing and the generator state left behind do not depend on the completion order and equal 'i-th circuit with i-th drawn integer' (seeds are drawn before dispatch); for every permutation of completion order the assembled results are map task over the batch; two devices in the same generator state running the same sequence of serial/parallel batches under any two schedules obtain identical seeds, results and final state (induction over the sequence); analytic results of the parallel path equal the serial path. Tie: device histories (2-3 batches of mixed analytic/finite-shot circuits) are executed on the real device through the serial path, SerialExec, ThreadPoolExec, ProcPoolExec and MPPoolExec (the latter through qp.execute with the device's max_workers) with a wrapper at default_qubit.simulate that sleeps (random jitter + one heavy task per batch) and logs (circuit, rng argument, result digest, completion time); the model is evaluated in Coq with numpy's draws recorded from an independent clone of the generator and must reproduce the logged (circuit, seed) pairs, the result at every output position (identified by digest) and the generator state after the history. Direct oracles: twin devices with the same seed but different delays give exactly equal results at every step; analytic results equal a serial device to 1e-12; logged seeds equal the clone's draws by index.",
-    "note": "Trusted: Coq kernel; the hand transcription of execute is tied by the correspondence only. OS scheduling, process start (spawn), pickling of tapes/results and the internals of concurrent.futures / multiprocessing are runtime behaviour outside the proof: they enter as the completion-order parameter and are exercised, not verified. Completion-order perturbation in process pools is best effort (measured in coverage.reordered_steps). The finite-shot streams of the serial path (generator threaded through) and of the parallel path (integer seeds) differ by design of the code; the property does not claim they agree and the check does not require it. jax PRNG keys, the derivative/VJP/JVP entry points, dask/MPI executors are not covered. Quick tier: process pools (spawn; every worker imports pennylane) only with 2 workers, single-batch histories, and only one of the two process backends gets the twin (same seed, different delays) run, alternating with VERIF_SEED; thorough tier: 1-8 workers, 2-3 batch histories, twins for all. How the device re-initialises its generator after a parallel batch (default_rng(rng.integers(2**31-1))) is part of the model but its table entry is recorded from the run, so a different deterministic re-seeding would not raise an alarm.",
+    "note": "Trusted: Coq kernel; the hand transcription of execute is tied by the correspondence only. OS scheduling, process start (spawn), pickling of tapes/results and the internals of concurrent.futures / multiprocessing are runtime behaviour outside the proof: they enter as the completion-order parameter and are exercised, not verified. Completion-order perturbation in process pools is best effort (measured in coverage.reordered_steps). The finite-shot streams of the serial path (generator threaded through) and of the parallel path (integer seeds) differ by design of the code; the property does not claim they agree and the check does not require it. jax PRNG keys, the derivative/VJP/JVP entry points, dask/MPI executors are not covered. Quick tier: process pools (spawn; every worker imports pennylane) only with 2 workers, single-batch histories, and only one of the two process backends gets the twin (same seed, different delays) run, alternating with VERIF_SEED; thorough tier: 6 process-pool configurations per run with worker counts from 1-8 rotating with VERIF_SEED, 2-batch histories, twins for all (thread pools: all of 1-8 every run). How the device re-initialises its generator after a parallel batch (default_rng(rng.integers(2**31-1))) is part of the model but its table entry is recorded from the run, so a different deterministic re-seeding would not raise an alarm.",
     "assumptions": ["completion order of the pool is an arbitrary permutation of the dispatched task indices (every task completes once)",
                     "simulate with an integer seed is a pure function of (circuit, seed) (checked by twin runs, not proved)"],
     "trusted": ["hand-written model coq/Disc/SeedExecModel.v tied to /repo by correspondence only",
@@ -71,14 +71,16 @@ def run(ctx):
     if quick:
         slow_cfgs = [("cf_procpool", 2, "dev"), ("mp_pool", 2, "qp")]
     else:
-        slow_cfgs = [("cf_procpool", k, "dev") for k in (1, 3, 5, 8)] + [("mp_pool", k, "qp") for k in (2, 4, 7)] + [("mp_pool", 6, "dev")]
+        # every pool worker imports pennylane (spawn): 6 process-pool configurations per run, worker counts rotate with the seed
+        pp, mq, md = [((1, 4, 8), (2, 5), 3), ((2, 6, 7), (1, 8), 4), ((3, 5, 8), (4, 7), 6)][ctx.seed % 3]
+        slow_cfgs = [("cf_procpool", k, "dev") for k in pp] + [("mp_pool", k, "qp") for k in mq] + [("mp_pool", md, "dev")]
     jobs, groups = [], []
     reps = 2 if quick else 5
 
     def add_group(cfg, slow, twins=("A", "B")):
         be, mw, via = cfg
         dev_seed = rng.randrange(1, 10 ** 6)
-        batches = gen_batches(rng, 1 if slow and quick else rng.choice([2, 3]))
+        batches = gen_batches(rng, (1 if quick else 2) if slow else rng.choice([2, 3]))
         ids = []
         for twin in twins:
             jid = len(jobs)
